@@ -190,6 +190,45 @@ def optionals(tree):
     return out
 
 
+def ddump(node):
+    """ast.dump-like structure dump (contexts and all fields kept) in which the whitespace after newlines inside
+    DOCSTRINGS is neutralised: pfst documents that docstrings are re-indented with their block (option `docstr`), so a
+    statement edit that re-indents a block (elif <-> else/if conversion) changes that whitespace and nothing else."""
+    import re
+    out = []
+
+    def rec(n, doc=False):
+        if isinstance(n, ast.AST):
+            out.append(n.__class__.__name__ + '(')
+            for f in n._fields:
+                v = getattr(n, f, None)
+                out.append(f + '=')
+                if f == 'body' and isinstance(n, (ast.FunctionDef, ast.AsyncFunctionDef, ast.ClassDef, ast.Module)) and isinstance(v, list) \
+                        and v and isinstance(v[0], ast.Expr) and isinstance(v[0].value, ast.Constant) and isinstance(v[0].value.value, str):
+                    out.append('[')
+                    rec(v[0], True)
+                    for x in v[1:]:
+                        out.append(', ')
+                        rec(x)
+                    out.append(']')
+                else:
+                    rec(v, doc and f == 'value')
+                out.append(', ')
+            out.append(')')
+        elif isinstance(n, list):
+            out.append('[')
+            for x in n:
+                rec(x)
+                out.append(', ')
+            out.append(']')
+        elif doc and isinstance(n, str):
+            out.append(repr(re.sub(r'\n[ \t]*', '\n', n)))
+        else:
+            out.append(repr(n))
+    rec(node)
+    return ''.join(out)
+
+
 def norm_slice(n, a, b):
     """Python list slice normalisation; 'end' -> n.  Returns (a', b') or None if a' > b'."""
     def one(i):
@@ -707,8 +746,8 @@ class C03(Plugin):
                 run.stats['refused_not_implemented'] += 1
                 return
             raise Violation('refused_valid_request', f'{what}: {O.exc_repr(exc)}')
-        got = sdump(root.a)
-        want = sdump(exp)
+        got = ddump(root.a)
+        want = ddump(exp)
         if got != want:
             from .editsim import _first_diff
             raise Violation('result_differs_from_list_model', f'{what}: ' + _first_diff(want, got).replace('parsed:', 'model:'))
